@@ -46,7 +46,7 @@ def row_orders(cols, dirs):
     cols: list of canonical-cell lists, dirs: list of 1/-1.
     """
     n = len(cols[0]) if cols else 0
-    desc = [j for j, d in enumerate(dirs) if d < 0]
+    desc = [j for j, d in enumerate(dirs) if d < 0 and any(c is None for c in cols[j])]     # the choice only exists where a cell is missing
     orders = []
     for choice in itertools.product([False, True], repeat=len(desc)):
         na_first = dict(zip(desc, choice))
